@@ -49,9 +49,19 @@ type sgPayer struct {
 	Kind string `json:"kind"`
 	I    int    `json:"i"`
 }
+// an account of the model's signer-account set (SigTx facts.accts): the single key's account or the
+// account of the m-of-n script over the (sorted) keys
+type sgAcct struct {
+	Form string `json:"form"`
+	Keys []int  `json:"keys"`
+	M    int    `json:"m"`
+}
 type sgTxD struct {
 	Payer sgPayer  `json:"payer"`
 	Sets  []sgSetD `json:"sets"`
+	// the specification's signer accounts of this transaction (optional; realised with the bound keys and
+	// reported next to the validator's and the fresh decode's signer sets)
+	Accts []sgAcct `json:"accts"`
 	// history of the Transaction object before the observed VerifyTransaction: "" / "fresh" (decoded, nothing else),
 	// "queried" (GetSignatureAddresses was called on it first), "reverify" (a first VerifyTransaction ran on it)
 	Pre string `json:"pre"`
@@ -68,6 +78,8 @@ type sgInput struct {
 	Txs    []sgTxD  `json:"txs"`
 	Muts   []sgMut  `json:"muts"`
 	Sample int      `json:"sample"`
+	// malformed signature blobs: every truncation length instead of the boundary lengths plus a seeded sample
+	MalFull bool `json:"malfull"`
 }
 
 type sgKey struct {
@@ -78,11 +90,120 @@ type sgKey struct {
 }
 
 type sgWorld struct {
-	keys   []*sgKey // abstract key k = keys[k-1]
-	sigc   map[string][]byte
-	nsign  int
-	other  common.Address
-	encBad []string
+	keys    []*sgKey // abstract key k = keys[k-1]
+	sigc    map[string][]byte
+	malc    map[string][]sgBlob
+	malFull bool
+	nsign   int
+	other   common.Address
+	encBad  []string
+}
+
+// one concrete realisation of a malformed signature blob (SigBase!Malformed)
+type sgBlob struct {
+	name  string // e.g. "truncated:0b+2"
+	class string // structural class used in finding keys
+	data  []byte
+}
+
+var sgMalKinds = map[string]bool{"me": true, "mo": true, "mt": true, "ml": true, "mw": true}
+
+// malBlobs realises the abstract blob [kind, by] over message msg: the concrete byte strings of that shape built
+// from a GOOD signature of key `by` (scheme byte || value).  The lists are deterministic per world (cached).
+func (w *sgWorld) malBlobs(kind string, by int, msg []byte) []sgBlob {
+	ck := fmt.Sprintf("%s/%d/%x", kind, by, msg)
+	if v, ok := w.malc[ck]; ok {
+		return v
+	}
+	key := w.key(by)
+	vs := w.sign(by, msg)
+	sch := byte(key.scheme)
+	val := vs[1:]
+	bare := false // P-256: the serialized form is the bare 64-byte r||s, the scheme byte is implied
+	if key.scheme == s.SHA256withECDSA && len(vs) == 64 {
+		val, bare = vs, true
+	}
+	n := len(val)
+	cat := func(parts ...[]byte) []byte {
+		var b []byte
+		for _, p := range parts {
+			b = append(b, p...)
+		}
+		return b
+	}
+	schemes := []byte{0, 1, 2, 3, 4, 5, 6, 7, 8, 9, 10, 11, 0x7f, 0xff}
+	var out []sgBlob
+	switch kind {
+	case "me":
+		out = append(out, sgBlob{"empty", "empty", []byte{}})
+	case "mo":
+		for _, b := range schemes {
+			out = append(out, sgBlob{fmt.Sprintf("scheme-byte-only:%02x", b), "scheme-byte-only", []byte{b}})
+		}
+	case "mt":
+		lens := map[int]bool{}
+		if w.malFull {
+			for l := 1; l < n; l++ {
+				lens[l] = true
+			}
+		} else {
+			for _, l := range []int{1, 2, 3, n/2 - 1, n / 2, n/2 + 1, n - 2, n - 1} {
+				if l >= 1 && l < n {
+					lens[l] = true
+				}
+			}
+			rnd := vhRand()
+			for i := 0; i < 2; i++ {
+				lens[1+rnd.Intn(n-1)] = true
+			}
+		}
+		var ls []int
+		for l := range lens {
+			ls = append(ls, l)
+		}
+		sort.Ints(ls)
+		for _, l := range ls {
+			class := "truncated"
+			if key.typ == "eth" && l == 64 {
+				class = "truncated-by-recovery-id" // r||s complete, only the trailing recovery id is missing
+			}
+			out = append(out, sgBlob{fmt.Sprintf("truncated:%02x+%d/%d", sch, l, n), class, cat([]byte{sch}, val[:l])})
+			if bare {
+				out = append(out, sgBlob{fmt.Sprintf("truncated:bare+%d/%d", l, n), class, cat(val[:l])})
+			}
+		}
+	case "ml":
+		ff := bytes.Repeat([]byte{0xff}, 32)
+		for _, ex := range [][]byte{{0}, {0, 0}, {val[0]}, ff, val} {
+			out = append(out, sgBlob{fmt.Sprintf("overlong:%02x+%d+%d", sch, n, len(ex)), "overlong", cat([]byte{sch}, val, ex)})
+			if bare {
+				out = append(out, sgBlob{fmt.Sprintf("overlong:bare+%d+%d", n, len(ex)), "overlong", cat(val, ex)})
+			}
+		}
+	case "mw":
+		for _, b := range schemes {
+			if b == sch {
+				continue
+			}
+			out = append(out, sgBlob{fmt.Sprintf("wrong-scheme:%02x+%d/%d", b, n, n), "wrong-scheme-byte", cat([]byte{b}, val)})
+		}
+		// one scheme byte per family (ECDSA, SM2, EdDSA, Keccak-ECDSA) with a value of the wrong length as well
+		for _, b := range []byte{1, 9, 10, 11} {
+			if b == sch {
+				continue
+			}
+			for _, l := range []int{1, 2, n / 2, n - 1} {
+				if l >= 1 && l < n {
+					out = append(out, sgBlob{fmt.Sprintf("wrong-scheme:%02x+%d/%d", b, l, n), "wrong-scheme-byte+truncated", cat([]byte{b}, val[:l])})
+				}
+			}
+			out = append(out, sgBlob{fmt.Sprintf("wrong-scheme:%02x+%d+1", b, n), "wrong-scheme-byte+overlong", cat([]byte{b}, val, []byte{0})})
+		}
+	default:
+		panic("unknown malformed shape " + kind)
+	}
+	w.malc[ck] = out
+	return out
 }
 
 func sgGenKey(typ string) *sgKey {
@@ -125,7 +246,7 @@ func sgGenKey(typ string) *sgKey {
 // sgNewWorld generates one real key per abstract key such that keypair.SortPublicKeys orders them
 // like the abstract indices (the specification's key order).
 func sgNewWorld(ktypes []string) *sgWorld {
-	w := &sgWorld{sigc: map[string][]byte{}}
+	w := &sgWorld{sigc: map[string][]byte{}, malc: map[string][]sgBlob{}}
 	for _, t := range ktypes {
 		w.keys = append(w.keys, sgGenKey(t))
 	}
@@ -306,6 +427,25 @@ func (w *sgWorld) setAddr(d *sgSetD) common.Address {
 	return a
 }
 
+// acctAddr realises an account of the specification with the bound keys, without going through the validator or
+// the script parser: the key's account, or the hash of the canonical m-of-n script the builder makes of the keys
+func (w *sgWorld) acctAddr(a *sgAcct) string {
+	if a.Form == "single" {
+		x := types.AddressFromPubKey(w.key(a.Keys[0]).pub)
+		return hex.EncodeToString(x[:])
+	}
+	var pubs []keypair.PublicKey
+	for _, k := range a.Keys {
+		pubs = append(pubs, w.key(k).pub)
+	}
+	code, err := program.ProgramFromMultiPubKey(pubs, a.M)
+	if err != nil {
+		return "error:" + err.Error()
+	}
+	x := common.AddressFromVmCode(code)
+	return hex.EncodeToString(x[:])
+}
+
 type sgRegion struct {
 	name       string
 	start, end int
@@ -315,12 +455,19 @@ type sgRegion struct {
 type sgBuilt struct {
 	raw     []byte
 	regions []sgRegion
+	nvar    int      // number of concrete variants of this abstract transaction (1 unless it holds malformed blobs)
+	vname   []string // the variant realised: name/class/key type of each malformed blob
+	vclass  []string
+	vktype  []string
 }
 
 func sgVarUint(sink *common.ZeroCopySink, v uint64) { sink.WriteVarUint(v) }
 
-// build assembles the transaction bytes; msgOverride != nil signs that message instead of the real hash
-func (w *sgWorld) build(d *sgTxD) *sgBuilt {
+// build assembles the transaction bytes (variant 0 of the abstract transaction)
+func (w *sgWorld) build(d *sgTxD) *sgBuilt { return w.buildV(d, 0) }
+
+// buildV: malformed blobs take their vi-th concrete realisation (modulo the number each has)
+func (w *sgWorld) buildV(d *sgTxD, vi int) *sgBuilt {
 	var payer common.Address
 	switch d.Payer.Kind {
 	case "set":
@@ -350,7 +497,7 @@ func (w *sgWorld) build(d *sgTxD) *sgBuilt {
 	hash := sha256.Sum256(h1[:])
 	other := sha256.Sum256(hash[:]) // "another message" for stale signatures
 
-	b := &sgBuilt{}
+	b := &sgBuilt{nvar: 1}
 	b.regions = append(b.regions, sgRegion{"content", 0, unsignedLen, ""}, sgRegion{"payer", payerOff, payerOff + 20, ""})
 	sink.WriteVarUint(uint64(len(d.Sets)))
 	for si := range d.Sets {
@@ -373,7 +520,18 @@ func (w *sgWorld) build(d *sgTxD) *sgBuilt {
 			case "x":
 				data = []byte{0x01}
 			default:
-				panic("unknown signature kind " + sg.Kind)
+				if !sgMalKinds[sg.Kind] {
+					panic("unknown signature kind " + sg.Kind)
+				}
+				blobs := w.malBlobs(sg.Kind, sg.By, hash[:])
+				if len(blobs) > b.nvar {
+					b.nvar = len(blobs)
+				}
+				bl := blobs[vi%len(blobs)]
+				data = bl.data
+				b.vname = append(b.vname, bl.name)
+				b.vclass = append(b.vclass, bl.class)
+				b.vktype = append(b.vktype, w.key(sg.By).typ)
 			}
 			sgPush(inv, data, "direct")
 			end := int(inv.Size())
@@ -392,7 +550,18 @@ func (w *sgWorld) build(d *sgTxD) *sgBuilt {
 	return b
 }
 
+// outcome of one concrete variant of an abstract transaction holding malformed signature blobs
+type sgVarObs struct {
+	Name  []string `json:"name"`
+	Class []string `json:"class"`
+	KType []string `json:"ktype"`
+	Code  int      `json:"code"`
+	Acc   bool     `json:"acc"`
+	Panic string   `json:"panic,omitempty"`
+}
 type sgObs struct {
+	Vars    []sgVarObs `json:"vars,omitempty"`
+	Model   []string   `json:"model"` // the specification's signer accounts realised with the bound keys
 	I       int      `json:"i"`
 	Dec     bool     `json:"dec"`
 	Code    int      `json:"code"`
@@ -440,7 +609,7 @@ func sgVerifyPre(raw []byte, pre string) (tx *types.Transaction, dec bool, code 
 }
 
 func sgObserve(i int, raw []byte, withExec bool, pre string) *sgObs {
-	o := &sgObs{I: i, Signed: []string{}, Raw: []string{}, CwFresh: []bool{}, CwVal: []bool{}}
+	o := &sgObs{I: i, Signed: []string{}, Raw: []string{}, CwFresh: []bool{}, CwVal: []bool{}, Model: []string{}}
 	tx, dec, code, pan := sgVerifyPre(raw, pre)
 	o.Dec, o.Code, o.Panic = dec, int(code), pan
 	o.Acc = dec && pan == "" && code == ontErrors.ErrNoError
@@ -508,9 +677,28 @@ func TestVerifSigTx(t *testing.T) {
 		ktl = append(ktl, k.typ)
 	}
 	out.Emit(map[string]interface{}{"meta": true, "encBad": w.encBad, "ktypes": ktl})
+	w.malFull = in.MalFull
 	for i := range in.Txs {
-		b := w.build(&in.Txs[i])
-		out.Emit(sgObserve(i, b.raw, true, in.Txs[i].Pre))
+		d := &in.Txs[i]
+		b := w.build(d)
+		o := sgObserve(i, b.raw, true, d.Pre)
+		// the model's signer accounts, derived from the account descriptors alone (builder + script hash)
+		for _, a := range d.Accts {
+			o.Model = append(o.Model, w.acctAddr(&a))
+		}
+		sort.Strings(o.Model)
+		// an abstract transaction holding malformed signature blobs stands for all of their concrete realisations
+		if len(b.vname) > 0 {
+			for vi := 0; vi < b.nvar; vi++ {
+				bv := w.buildV(d, vi)
+				ov := sgObserve(i, bv.raw, false, d.Pre)
+				if !ov.Dec && ov.Panic == "" {
+					panic(fmt.Sprintf("tx %d variant %v does not decode", i, bv.vname))
+				}
+				o.Vars = append(o.Vars, sgVarObs{bv.vname, bv.vclass, bv.vktype, ov.Code, ov.Acc, ov.Panic})
+			}
+		}
+		out.Emit(o)
 	}
 	rnd := vhRand()
 	sample := in.Sample
